@@ -11,6 +11,8 @@ ASSUMPTIONS = [
 CLOCK0 = 1_000_000
 DUR = [("1s", 1), ("2s", 2), ("3s", 3), ("1m", 60), ("2m", 120), ("1h", 3600), ("1d", 86400), ("0s", 0)]
 
+SAME_LENGTH = {"1m": "60s", "2m": "120s", "1h": "60m", "1d": "24h", "0s": "0m"}
+
 
 def gen_both(seed, i):
     """a step and an act below it both carry rules, one duration text in common; the act opens later than the step (possibly after the step's
@@ -60,6 +62,8 @@ def gen_scenario(seed, i):
     picks = rng.shuffle(DUR)[:nrules]
     if rng.chance(1, 8) and nrules >= 2:
         picks[1] = picks[0]          # two rules with the same duration text share the once-flag
+    elif rng.chance(1, 6) and nrules >= 2 and picks[0][0] in SAME_LENGTH:
+        picks[1] = (SAME_LENGTH[picks[0][0]], picks[0][1])      # same length, other text: two independent rules, each fires once
     rules = []
     tsteps = {}
     for j, (on, secs) in enumerate(picks):
